@@ -3,14 +3,14 @@ EXTENDS TbText, CallChain, TLC, Json
 CONSTANTS MaxFrames, MaxDepth
 VARIABLES kind, tb, prog, exc
 vars == <<kind, tb, prog, exc>>
-FrameSet == [path : 1..4, lineno : {1, 42}, func : 1..3, src : 0..2, rep : {0}] \cup [path : {1}, lineno : {42}, func : 1..2, src : 0..2, rep : {1, 7}]
+FrameSet == [path : 1..5, lineno : {1, 42}, func : 1..5, src : 0..2, rep : {0}] \cup [path : {1}, lineno : {42}, func : 1..2, src : 0..2, rep : {1, 7}]
 FrameSmall == [path : {1, 2}, lineno : {7}, func : {1, 2}, src : 0..2, rep : {0}] \cup [path : {1}, lineno : {7}, func : {1}, src : {1, 2}, rep : {2}]
 RECURSIVE SeqsOf(_, _)
 SeqsOf(A, n) == IF n = 0 THEN {<<>>} ELSE LET s == SeqsOf(A, n - 1) IN s \cup {Append(x, u) : x \in {y \in s : Len(y) = n - 1}, u \in A}
 Msgs == {<<>>, <<1>>, <<2>>, <<1, 3>>, <<1, 4, 3>>, <<5>>, <<1, 6, 3>>, <<2, 3, 7, 3>>, <<1, 6>>, <<1, 8>>, <<2, 3, 9>>, <<8>>}     \* none | plain | contains ": " | two lines | blank line inside | non-ASCII | caret-pointer lines (a parser quoting its input) | last line blank-only (8: spaces, 9: a tab; a message ending in a line break is exercised through real exceptions, kinds 13-14 of the chains)
 Init == \/ /\ kind = "text" /\ tb \in [frames : SeqsOf(FrameSet, 1) \cup SeqsOf(FrameSmall, MaxFrames), etype : {1, 2}, msg : Msgs]
            /\ prog = <<>> /\ exc = 0
-        \/ /\ kind = "chain" /\ prog \in SeqsOf(1..8, MaxDepth) \ {<<>>} /\ exc \in 1..14
+        \/ /\ kind = "chain" /\ prog \in SeqsOf(1..8, MaxDepth) \ {<<>>} /\ exc \in 1..15
            /\ tb = [frames |-> <<>>, etype |-> 1, msg |-> <<>>]
 Next == UNCHANGED vars
 Spec == Init /\ [][Next]_vars
